@@ -38,7 +38,7 @@ TNext ==
         \/ Ev.e = "WaitAbortCall" /\ WaitAbortCall
         \* the client waited (3 s) for its context to be cancelled: only "aborted" can be explained
         \/ Ev.e = "WaitAbortRet"  /\ Ev.r = "aborted" /\ WaitAbortRet
-        \/ Ev.e = "Cb"       /\ CbStep /\ cblog'[Len(cblog')] = <<Ev.n, Ev.k>>
+        \/ Ev.e = "Cb"       /\ CbStep /\ cblog'[Len(cblog')] = <<Ev.n, Ev.k, Ev.s, Ev.i>>
         \/ Ev.e = "CloseCall" /\ CloseCall
         \/ Ev.e = "CloseRet" /\ CloseRet
         \/ Ev.e = "WaitCall" /\ WaitCall
